@@ -486,7 +486,7 @@ func (x *explorer) callLabels(n *Node, st map[int]Val) []Label {
 	return ls
 }
 
-var readOnlyCallees = []string{"fmt.", "errors.", "encoding/json.Marshal", "strings.", "bytes.Equal", "append", "len", "cap", "chansend", "slices.", "sort.", "strconv."}
+var readOnlyCallees = []string{"fmt.", "errors.New", "errors.Is", "errors.Unwrap", "errors.Join", "encoding/json.Marshal", "strings.", "bytes.Equal", "append", "len", "cap", "chansend", "slices.", "sort.", "strconv."}
 
 func isReadOnlyCallee(name string) bool {
 	for _, p := range readOnlyCallees {
@@ -832,6 +832,21 @@ func (x *explorer) step(s *PState) []succ {
 				}
 			}
 		}
+		ageFacts := func(f map[string]bool) map[string]bool {
+			var nf map[string]bool
+			for k := range f {
+				if strings.Contains(k, "re("+key+")") || strings.Contains(k, "rk("+key+")") {
+					if nf == nil {
+						nf = copyFacts(f)
+					}
+					delete(nf, k)
+				}
+			}
+			if nf == nil {
+				return f
+			}
+			return nf
+		}
 		bodyOK, doneOK := true, true
 		if n.First {
 			if s.Facts["NE:"+key] || (xr.Op == "list" && len(xr.Args) > 0) {
@@ -852,18 +867,32 @@ func (x *explorer) step(s *PState) []succ {
 				st2[n.ValVar.ID] = Val{T: mk("re", "", xr)}
 			}
 			ls := append(append([]Label{}, labels...), Label{Kind: "rangenext", Key: key, T: xr, Node: n})
-			out = append(out, succ{n: n.Succ[0], st: st2, facts: s.Facts, labels: ls})
+			out = append(out, succ{n: n.Succ[0], st: st2, facts: ageFacts(s.Facts), labels: ls})
 		}
 		if doneOK {
 			ls := append(append([]Label{}, labels...), Label{Kind: "rangedone", Key: key, T: xr, Node: n})
 			st3 := copyStore(st)
 			age(st3)
-			out = append(out, succ{n: n.Succ[1], st: st3, facts: s.Facts, labels: ls})
+			out = append(out, succ{n: n.Succ[1], st: st3, facts: ageFacts(s.Facts), labels: ls})
 		}
 		return out
 	case NBranch:
 		rt := x.resolve(n.Cond, st, 0)
 		a := normAtom(rt, nilOracle(n.Cond, st))
+		if a.Const == 0 && a.EqConst != "" {
+			// equality with a constant already decided on this path?
+			for f := range s.Facts {
+				if strings.HasPrefix(f, "EQ:"+a.EqTerm+"=") {
+					known := strings.TrimPrefix(f, "EQ:"+a.EqTerm+"=")
+					holds := (known == a.EqConst) == a.Pol
+					if holds {
+						a.Const = 1
+					} else {
+						a.Const = -1
+					}
+				}
+			}
+		}
 		var out []succ
 		for i := 0; i < 2; i++ {
 			pol := i == 0
@@ -884,6 +913,10 @@ func (x *explorer) step(s *PState) []succ {
 			st2 := copyStore(st)
 			x.havoc(n, st2)
 			facts := refine(st2, s.Facts, est)
+			if a.EqConst != "" && est.Pol {
+				facts = copyFacts(facts)
+				facts["EQ:"+a.EqTerm+"="+a.EqConst] = true
+			}
 			ls := append(append([]Label{}, labels...), Label{Kind: "atom", Key: est.Key, Pol: est.Pol, T: rt, Node: n})
 			out = append(out, succ{n: n.Succ[i], st: st2, facts: facts, labels: ls})
 		}
